@@ -1251,7 +1251,7 @@ class Normaliser(object):
 
     def run(self):
         if self.inline_only:
-            self._defs_to_lambdas = self._ifs_to_conditional_expressions = self._outline = self._merge_conditional_calls = self._split_parallel_assignments = self._for_else_to_early_exit = self._scalarise_private_namedtuples = self._forward_pure_loads = self._spread_and_getattr = self._alias_of_renamed_def = self._apply_lambda_locals = lambda: None
+            self._defs_to_lambdas = self._ifs_to_conditional_expressions = self._outline = self._merge_conditional_calls = self._split_parallel_assignments = self._for_else_to_early_exit = self._scalarise_private_namedtuples = self._forward_pure_loads = self._spread_and_getattr = self._alias_of_renamed_def = self._apply_lambda_locals = self._unpack_private_namedtuple_calls = self._index_of_list_literal = self._sink_result_aliases = lambda: None
         self._defs_to_lambdas()
         if self.helpers and not self.inline_only:
             self._collect_refresh()       # helper bodies were captured before nested defs became lambdas
@@ -1283,7 +1283,10 @@ class Normaliser(object):
         self._apply_lambda_locals()
         self._spread_and_getattr()
         self._forward_pure_loads()
+        self._unpack_private_namedtuple_calls()
         self._split_parallel_assignments()
+        self._index_of_list_literal()
+        self._sink_result_aliases()
         self._for_else_to_early_exit()
         self._ifs_to_conditional_expressions()
         self._merge_conditional_calls()
@@ -1352,6 +1355,146 @@ class Normaliser(object):
         for t in self.trees.values():
             for fn in [n for n in ast.walk(t) if isinstance(n, ast.FunctionDef)]:
                 fn.body = rewrite(fn.body)
+
+    def _private_namedtuples(self, t):
+        nts = {}
+        for s_ in t.body:
+            if isinstance(s_, ast.Assign) and len(s_.targets) == 1 and isinstance(s_.targets[0], ast.Name) and s_.targets[0].id.startswith('_') and \
+                    isinstance(s_.value, ast.Call) and isinstance(s_.value.func, (ast.Name, ast.Attribute)) and \
+                    (s_.value.func.id if isinstance(s_.value.func, ast.Name) else s_.value.func.attr) == 'namedtuple' and len(s_.value.args) == 2:
+                f_ = s_.value.args[1]
+                if isinstance(f_, (ast.List, ast.Tuple)) and all(isinstance(e, ast.Constant) and isinstance(e.value, str) for e in f_.elts):
+                    nts[s_.targets[0].id] = [e.value for e in f_.elts]
+                elif isinstance(f_, ast.Constant) and isinstance(f_.value, str):
+                    nts[s_.targets[0].id] = f_.value.replace(',', ' ').split()
+        return nts
+
+    def _unpack_private_namedtuple_calls(self):
+        """`a, b = _X(f1=x, f2=y)` with `_X` a private module-level namedtuple (new on this tree) is `a, b = x, y` in field order: the tuple
+        object is unpacked at once and never observed. When the written order of the arguments differs from the field order the arguments
+        must be free of calls (nothing whose order of evaluation could be seen)"""
+        for mn, t in self.trees.items():
+            nts = self._private_namedtuples(t)
+            if not nts:
+                continue
+            for n in ast.walk(t):
+                if isinstance(n, ast.Assign) and len(n.targets) == 1 and isinstance(n.targets[0], ast.Tuple) and isinstance(n.value, ast.Call) and \
+                        isinstance(n.value.func, ast.Name) and n.value.func.id in nts:
+                    c, fields = n.value, nts[n.value.func.id]
+                    if any(isinstance(a, ast.Starred) for a in c.args) or any(k.arg is None for k in c.keywords) or len(n.targets[0].elts) != len(fields):
+                        continue
+                    given = dict(zip(fields, c.args))
+                    given.update({k.arg: k.value for k in c.keywords})
+                    if set(given) != set(fields) or len(c.args) + len(c.keywords) != len(fields):
+                        continue
+                    written = [f for f, _ in zip(fields, c.args)] + [k.arg for k in c.keywords]
+                    if written != fields and any(isinstance(x, (ast.Call, ast.Yield, ast.Await, ast.NamedExpr)) for v in given.values() for x in ast.walk(v)):
+                        continue
+                    n.value = ast.copy_location(ast.Tuple(elts=[given[f] for f in fields], ctx=ast.Load()), c)
+                    self.inlined.append(('private namedtuple', c.func.id, 'unpacked'))
+
+    def _index_of_list_literal(self):
+        """`x = L[k]` (constant k) where the local `L` was bound, earlier in the same block and with nothing in between mentioning it, to a
+        list display / `[a, ...] + rest` whose k-th leading element is a plain name: `x = a` (the element just put there)"""
+        norm_ = self
+
+        def leading(v):
+            if isinstance(v, (ast.List, ast.Tuple)) and not any(isinstance(e, ast.Starred) for e in v.elts):
+                return v.elts
+            if isinstance(v, ast.BinOp) and isinstance(v.op, ast.Add):
+                return leading(v.left)
+            return []
+
+        def rewrite(stmts):
+            for i, s_ in enumerate(stmts):
+                for fld in ('body', 'orelse', 'finalbody'):
+                    b = getattr(s_, fld, None)
+                    if isinstance(b, list) and b and isinstance(b[0], ast.stmt):
+                        rewrite(b)
+                for h in getattr(s_, 'handlers', []) or []:
+                    rewrite(h.body)
+                if isinstance(s_, ast.Assign) and isinstance(s_.value, ast.Subscript) and isinstance(s_.value.value, ast.Name) and \
+                        isinstance(s_.value.slice, ast.Constant) and isinstance(s_.value.slice.value, int) and s_.value.slice.value >= 0:
+                    L, k = s_.value.value.id, s_.value.slice.value
+                    for j in range(i - 1, -1, -1):
+                        p_ = stmts[j]
+                        if isinstance(p_, ast.Assign) and len(p_.targets) == 1 and isinstance(p_.targets[0], ast.Name) and p_.targets[0].id == L:
+                            el = leading(p_.value)
+                            if k < len(el) and isinstance(el[k], ast.Name):
+                                s_.value = ast.copy_location(ast.Name(id=el[k].id, ctx=ast.Load()), s_.value)
+                                norm_.inlined.append(('element of a list display', L, 'forwarded'))
+                            break
+                        if any(isinstance(x, ast.Name) and x.id == L for x in ast.walk(p_)):
+                            break
+        for t in self.trees.values():
+            for fn in [n for n in ast.walk(t) if isinstance(n, ast.FunctionDef)]:
+                rewrite(fn.body)
+
+    def _sink_result_aliases(self):
+        """`b = <expr>; ...; a = b` in one block, where `b` is bound only there, every read of `b` lies in that block from its binding on, `a`
+        is not mentioned between the two statements nor bound again in the rest of the block, and - should a statement in between raise - no handler of the function leaves `a` as
+        it was (each binds `a` or ends by raising): `b` is another name for what becomes `a`; it is written as `a` from the start"""
+        norm_ = self
+
+        def blocks(fn):
+            for n in ast.walk(fn):
+                for fld in ('body', 'orelse', 'finalbody'):
+                    b = getattr(n, fld, None)
+                    if isinstance(b, list) and b and isinstance(b[0], ast.stmt):
+                        yield n, b
+                if isinstance(n, ast.ExceptHandler):
+                    pass
+        for t in self.trees.values():
+            for fn in [n for n in ast.walk(t) if isinstance(n, ast.FunctionDef)]:
+                again = True
+                while again:
+                    again = False
+                    for owner, blk in list(blocks(fn)):
+                        for i, s_ in enumerate(blk):
+                            if not (isinstance(s_, ast.Assign) and len(s_.targets) == 1 and isinstance(s_.targets[0], ast.Name) and isinstance(s_.value, ast.Name)):
+                                continue
+                            a, b = s_.targets[0].id, s_.value.id
+                            if a == b:
+                                continue
+                            stores_b = [x for x in ast.walk(fn) if isinstance(x, ast.Name) and x.id == b and isinstance(x.ctx, (ast.Store, ast.Del))]
+                            if len(stores_b) != 1 or b in {p.arg for p in fn.args.args + fn.args.kwonlyargs} or \
+                                    any(isinstance(x, (ast.Global, ast.Nonlocal)) and (a in x.names or b in x.names) for x in ast.walk(fn)):
+                                continue
+                            j = next((j for j in range(i - 1, -1, -1) if isinstance(blk[j], ast.Assign) and len(blk[j].targets) == 1 and
+                                      blk[j].targets[0] is stores_b[0]), None)
+                            if j is None:
+                                continue
+                            between = blk[j:]          # (reads after the alias, in the rest of the block, see the same object under either name
+                            #                             as long as `a` is not bound again there)
+                            inside = {id(x) for st_ in between for x in ast.walk(st_)}
+                            reads_b = [x for x in ast.walk(fn) if isinstance(x, ast.Name) and x.id == b and isinstance(x.ctx, ast.Load)]
+                            if any(id(x) not in inside for x in reads_b):
+                                continue
+                            if any(isinstance(x, ast.Name) and x.id == a and x is not s_.targets[0] for st_ in blk[j:i + 1] for x in ast.walk(st_)):
+                                continue
+                            if any(isinstance(x, ast.Name) and x.id == a and isinstance(x.ctx, (ast.Store, ast.Del)) for st_ in blk[i + 1:] for x in ast.walk(st_)):
+                                continue
+                            # nested functions reading b late would see the same object under either name: still, keep it simple
+                            if any(isinstance(x, (ast.FunctionDef, ast.Lambda)) for st_ in between for x in ast.walk(st_)
+                                   if any(isinstance(y, ast.Name) and y.id == b for y in ast.walk(x))):
+                                continue
+                            trys = [tr for tr in ast.walk(fn) if isinstance(tr, ast.Try) and any(x is s_ for b_ in tr.body for x in ast.walk(b_))]
+                            def rebinding(h):
+                                return (h.body and isinstance(h.body[-1], ast.Raise)) or \
+                                    any(isinstance(x, ast.Assign) and any(isinstance(t_, ast.Name) and t_.id == a for t_ in x.targets) for x in h.body)
+                            if any(not rebinding(h) for tr in trys for h in tr.handlers) or \
+                                    any(isinstance(x, ast.Name) and x.id == a for tr in trys for st_ in tr.finalbody for x in ast.walk(st_)):
+                                continue
+                            for st_ in between:
+                                for x in ast.walk(st_):
+                                    if isinstance(x, ast.Name) and x.id == b:
+                                        x.id = a
+                            del blk[i]
+                            norm_.inlined.append(('alias of a result', b, 'written as %s' % a))
+                            again = True
+                            break
+                        if again:
+                            break
 
     def _for_else_to_early_exit(self):
         """`for ..: .. break ..  else: E` followed by AFTER, where E always returns / raises and AFTER (a few simple statements) always
